@@ -252,6 +252,9 @@ func c19ForeignFileSetsOnHost(run *vlib.Run, harness, bin string, selection map[
 		if sup, _ := sm["supported"].(bool); sup {
 			run.Violation("stub-reports-supported", fmt.Sprintf("file set %q (targets %v) executed on the host: Supported() is true on a non-Linux target", jb.sel, jb.tgs), replay)
 		}
+		if sup, _ := sm["supported_after_loads"].(bool); sup {
+			run.Violation("stub-reports-supported", fmt.Sprintf("file set %q (targets %v) executed on the host: Supported() is true on a non-Linux target once LoadFilter has been called", jb.sel, jb.tgs), replay)
+		}
 		if len(between) > 0 {
 			run.Violation("stub-performs-system-call", fmt.Sprintf("file set %q (non-Linux targets %v) executed on the host: Supported/SetNoNewPrivs/LoadFilter issued %v between the markers", jb.sel, jb.tgs, between), replay)
 		}
